@@ -315,6 +315,7 @@ type ByteObs struct {
 	Tx       uint64   `json:"tx"`        // Observer.Tx()
 	PeerSent int      `json:"peer_sent"` // bytes the peer wrote
 	PeerGot  int      `json:"peer_got"`  // bytes the peer read
+	ShortWrite bool   `json:"short_write"` // a Write returned 0 < n < len(p) together with an error (write deadline, peer not reading)
 }
 
 // Coq renders it as G12.Check.bobs.
@@ -425,6 +426,51 @@ func RunByteCounters(tier string, seed uint64) []ByteObs {
 		}
 		<-peerDone
 		wc.Close()
+		l.Close()
+		if ob != nil {
+			bo.Rx, bo.Tx = ob.Rx(), ob.Tx()
+		}
+		out = append(out, bo)
+	}
+	// short writes: the peer does not read, the write deadline expires in the middle of a large write, which returns
+	// n > 0 AND an error; those n bytes have left the wrapper (the peer gets them later)
+	for i := 0; i < 3; i++ {
+		l, err := net.Listen("tcp", "127.0.0.1:0")
+		if err != nil {
+			continue
+		}
+		var bo ByteObs
+		release := make(chan struct{})
+		peerDone := make(chan struct{})
+		go func() {
+			defer close(peerDone)
+			c, err := l.Accept()
+			if err != nil {
+				return
+			}
+			defer c.Close()
+			<-release
+			got, _ := io.Copy(io.Discard, c)
+			bo.PeerGot = int(got)
+		}()
+		raw, err := net.Dial("tcp", l.Addr().String())
+		if err != nil {
+			l.Close()
+			close(release)
+			continue
+		}
+		wc, ob := conntrack.Builder{TrackTraffic: true, OnClose: func() {}}.BuildWithObserver(raw)
+		big := bytes.Repeat([]byte("s"), 32<<20)
+		wc.SetWriteDeadline(time.Now().Add(150 * time.Millisecond))
+		m, werr := wc.Write(big)
+		bo.Ops = append(bo.Ops, [2]int{1, m})
+		bo.ShortWrite = werr != nil && m > 0 && m < len(big)
+		wc.SetWriteDeadline(time.Time{})
+		m, _ = wc.Write([]byte("tail"))
+		bo.Ops = append(bo.Ops, [2]int{1, m})
+		close(release)
+		wc.Close()
+		<-peerDone
 		l.Close()
 		if ob != nil {
 			bo.Rx, bo.Tx = ob.Rx(), ob.Tx()
